@@ -24,7 +24,7 @@ def _cfg_for(name):
                 if mode == "rows" and not a.supports_rows:
                     continue
                 for b in ([1, 2, 4] if tier == "quick" else [1, 2, 3, n + 1]):
-                    if getattr(a, "slow", False) and tier == "quick" and (b > 2 or mode == "rows"):
+                    if getattr(a, "slow", False) and tier == "quick" and (b > 2 or (mode == "rows" and b > 1)):
                         continue
                     out.append(dict(strat=name, n=n, mode=mode, b=b))
         return out
